@@ -114,6 +114,8 @@ CutGroups(O, gone) == UNION {{<<s.key, tc.inv, tc.p>> : tc \in {t \in s.tcs : Re
 Cut(O, gone, groups) == {[s EXCEPT !.tcs = {tc \in s.tcs : <<s.key, tc.inv, tc.p>> \notin groups}] : s \in {x \in O : x.key \notin gone}}
 FlipG(groups) == {<<g[1], ~g[2], g[3]>> : g \in groups}
 NoTieKeys(X, ta, tc) == {x \in X : <<x[1], x[2][1], x[2][2]>> \notin ta /\ <<x[1], ~x[2][1], x[2][2]>> \notin tc}
+\* the printed ratios (scaled by 10^4) of the constraint lines: "the same figures" includes the rounding a number of decimals asks for
+RatioFacts(obs) == UNION {{<<s.key, tc.inv, tc.p, tc.k, tc.card, tc.ratio>> : tc \in {t \in s.tcs : t.ratio >= 0 /\ t.ks = {}}} : s \in obs}
 InverseRel(OA0, OB0, OC0) ==
   LET goneB == ObsKeys(OA0) \ ObsKeys(OB0)
       goneC == ObsKeys(OA0) \ ObsKeys(OC0)
@@ -140,7 +142,9 @@ InverseRel(OA0, OB0, OC0) ==
      \* (in a tie group the reference that wins may be one to a shape that is removed later - the key goes with it, KF.C02.cleanref)
      (IF NoTieKeys(A!KeysIn(NonLit(Dir(OAc, TRUE))), ta, tc) # NoTieKeys(A!KeysIn(Flip(NonLit(Dir(OC, FALSE)))), ta, tc) THEN {"C14.inversekeys"} ELSE {}) \cup
      (IF NoTies(A!ConsOf(NonLit(Dir(OAc, TRUE)))) # NoTies(A!ConsOf(Flip(NonLit(Dir(OC, FALSE))))) THEN {"C14.inverse"} ELSE {}) \cup
-     (IF NoTies(A!Facts(NonLit(Dir(OAc, TRUE)))) # NoTies(A!Facts(Flip(NonLit(Dir(OC, FALSE))))) THEN {"C14.inversefacts"} ELSE {})
+     (IF NoTies(A!Facts(NonLit(Dir(OAc, TRUE)))) # NoTies(A!Facts(Flip(NonLit(Dir(OC, FALSE))))) THEN {"C14.inversefacts"} ELSE {}) \cup
+     (IF RatioFacts(Dir(OAb, FALSE)) # RatioFacts(OB) THEN {"C14.directratios"} ELSE {}) \cup
+     (IF NoTies(RatioFacts(NonLit(Dir(OAc, TRUE)))) # NoTies(RatioFacts(Flip(NonLit(Dir(OC, FALSE))))) THEN {"C14.inverseratios"} ELSE {})
 
 \* ---- delivery (C08): what a channel delivered to each pass (hook pass.triple) is the document as a bag.
 \* A read event is <<subject kind, subject, predicate, object kind / datatype, object>>; literals are compared on their datatype.
